@@ -115,13 +115,56 @@ def level_facts(py: PyRepo, ci: ClassInfo, meth: str, _depth: int = 0) -> Method
                 if 'classmethod' in decos:
                     return hit[1], ('name', ci.name)
                 return hit[1], SELF
+        # `self.<helper object>.m(..)`: the method of the object the class keeps for itself, evaluated in place on that object
+        if isinstance(f, ast.Attribute) and isinstance(f.value, ast.Attribute) and isinstance(f.value.value, ast.Name) \
+                and f.value.value.id == 'self' and f.value.attr in helpers:
+            k = helpers[f.value.attr][0]
+            g = k.methods.get(f.attr)
+            if g is not None and not any(isinstance(n, (ast.While, ast.Yield, ast.YieldFrom)) for n in ast.walk(g)) and not g.decorator_list:
+                return g, ('attr', SELF, f.value.attr)
         return None
+
+    from .pyfacts import helper_objects
+    helpers = helper_objects(py, ci)
+    # what the fields of a helper object are: `self.f = <parameter>` in its constructor, the parameter bound at the construction site
+    alias = {}
+    for attr, (k, cargs) in helpers.items():
+        init = k.methods['__init__']
+        kparams = [a.arg for a in init.args.args[1:]]
+        for n in ast.walk(init):
+            if isinstance(n, (ast.Assign, ast.AnnAssign)) and n.value is not None and isinstance(n.value, ast.Name) and n.value.id in kparams:
+                tgt = n.targets[0] if isinstance(n, ast.Assign) else n.target
+                if isinstance(tgt, ast.Attribute) and isinstance(tgt.value, ast.Name) and tgt.value.id == 'self' \
+                        and kparams.index(n.value.id) < len(cargs):
+                    try:
+                        val = PyEval().expr(cargs[kparams.index(n.value.id)], {'self': SELF}, [])
+                    except Decline:
+                        continue
+                    alias[('attr', ('attr', SELF, attr), tgt.attr)] = val
+
+    def unalias(v):
+        if isinstance(v, tuple):
+            if v in alias:
+                return alias[v]
+            return tuple(unalias(x) if isinstance(x, tuple) else x for x in v)
+        return v
 
     ev = PyEval(resolver=resolver)
     try:
         paths = ev.paths(fn)
     except Decline as d:
         raise AnalysisError(f'{ci.name}.{meth}: outside the analysed subset: {d}')
+    if alias:
+        for p in paths:
+            for e in p.events:
+                e.value = unalias(e.value)
+                if e.kind == 'loop' and e.extra:
+                    for bp in e.extra:
+                        for e2 in bp.events:
+                            e2.value = unalias(e2.value)
+            p.conds = [(unalias(c), b) for c, b in p.conds]
+            if len(p.end) > 1:
+                p.end = (p.end[0], unalias(p.end[1])) + tuple(p.end[2:])
     for p in paths:
 
         rec = {'conds': [(canon_value(c), b) for c, b in p.conds], 'binds': [], 'pushes': [], 'mem': [], 'claims': None,
